@@ -382,12 +382,7 @@ def b_resp(r, rng=None):
             if cond == 'PREAUTH':
                 return ResponsePreAuth(b'*', text, cd)
             return UntaggedResponse(text, cd, condition=cond.encode())
-        cls = {'OK': ResponseOk, 'NO': ResponseNo, 'BAD': ResponseBad,
-               'PREAUTH': ResponsePreAuth}.get(cond)
-        if cls is None:   # a tagged BYE does not exist as a class
-            resp = ResponseOk(tag, text, cd)
-            resp.condition = cond.encode()
-            return resp
+        cls = {'OK': ResponseOk, 'NO': ResponseNo, 'BAD': ResponseBad}[cond]
         return cls(tag, text, cd)
     if k == 'cont':
         return ResponseContinuation(r[1])
@@ -453,24 +448,21 @@ def install_recorders() -> None:
     if getattr(C, '_c07_patched', False):
         return
     C._c07_patched = True
-    for name in ('UidNext', 'Unseen', 'CopyUid', 'MailboxId', 'UidValidity', 'AppendUid',
-                 'PermanentFlags', 'Capability'):
-        cls = getattr(C, name)
+
+    def wrap(cls):
         orig = cls.__init__
 
-        def make(orig):
-            def __init__(self, *args, **kw):
-                if args and not isinstance(args[0], (int, bytes)):
-                    args = (list(args[0]),) + args[1:] if name_is_iter(args[0]) else args
-                if len(args) > 1 and name_is_iter(args[1]):
-                    args = (args[0], list(args[1])) + args[2:]
-                self._c07_args = args
-                orig(self, *args, **kw)
-            return __init__
-        cls.__init__ = make(orig)
+        def __init__(self, *args, **kw):
+            args = tuple(list(a) if _is_iter(a) else a for a in args)
+            self._c07_args = args
+            orig(self, *args, **kw)
+        cls.__init__ = __init__
+    for name in ('UidNext', 'Unseen', 'CopyUid', 'MailboxId', 'UidValidity', 'AppendUid',
+                 'PermanentFlags', 'Capability'):
+        wrap(getattr(C, name))
 
 
-def name_is_iter(x) -> bool:
+def _is_iter(x) -> bool:
     from pymap.parsing.specials import ObjectId
     return not isinstance(x, (int, bytes, str, ObjectId)) and hasattr(x, '__iter__')
 
@@ -735,6 +727,12 @@ def gen_flag(rng, perm=False) -> bytes:
     return rng.choice([b'$Junk', b'kw', b'a.b', b'NIL', b'x[y', b'~', b'+'] + [gen_atom(rng)])
 
 
+def _shuffled(rng, items) -> list:
+    out = sorted(items)
+    rng.shuffle(out)
+    return out
+
+
 def gen_dt(rng):
     return (rng.randint(1, 28), rng.randint(1, 12),
             rng.choice([1, 9, 99, 999, 1000, 1970, 2024, 9999]) if rng.random() < 0.5
@@ -819,7 +817,7 @@ def gen_section(rng, binary=False):
         return (parts, rng.choice([b'HEADER', b'TEXT']), [])
     if r < 0.6 and parts:
         return (parts, b'MIME', [])
-    hs = sorted({gen_bytes(rng, 8).upper() for _ in range(rng.randint(1, 3))})
+    hs = _shuffled(rng, {gen_bytes(rng, 8).upper() for _ in range(rng.randint(1, 3))})
     return (parts, rng.choice([b'HEADER.FIELDS', b'HEADER.FIELDS.NOT']), hs)
 
 
@@ -834,7 +832,7 @@ def gen_item(rng):
     if k == 'uid':
         return (k, rng.choice([1, 9, 10, 4294967295]))
     if k == 'flags':
-        return (k, sorted({gen_flag(rng) for _ in range(rng.randint(0, 4))}))
+        return (k, _shuffled(rng, {gen_flag(rng) for _ in range(rng.randint(0, 4))}))
     if k == 'internaldate':
         return (k, gen_dt(rng))
     if k == 'emailid':
@@ -874,7 +872,7 @@ def gen_code(rng):
     if k == 'capability':
         return (k, [gen_atom(rng) for _ in range(rng.randint(0, 4))])
     if k == 'permanentflags':
-        return (k, sorted({gen_flag(rng, True) for _ in range(rng.randint(0, 5))}))
+        return (k, _shuffled(rng, {gen_flag(rng, True) for _ in range(rng.randint(0, 5))}))
     if k in ('uidnext', 'uidvalidity', 'unseen'):
         return (k, rng.choice([1, 9, 101, 4294967295]))
     if k == 'appenduid':
@@ -904,7 +902,7 @@ def gen_resp(rng):
     if k == 'capability':
         return (k, [gen_atom(rng) for _ in range(rng.randint(0, 5))])
     if k == 'flags':
-        return (k, sorted({gen_flag(rng) for _ in range(rng.randint(0, 5))}))
+        return (k, _shuffled(rng, {gen_flag(rng) for _ in range(rng.randint(0, 5))}))
     if k in ('exists', 'recent'):
         return (k, rng.choice([0, 1, 10, 4294967295]))
     if k == 'expunge':
@@ -914,8 +912,14 @@ def gen_resp(rng):
         seen = set()
         for _ in range(rng.randint(1, 4)):
             it = gen_item(rng)
-            key = (it[0],) + (tuple(map(repr, it[1:3])) if it[0] in ('section', 'binary',
-                                                                  'binarysize', 'rfc822') else ())
+            if it[0] in ('section', 'binary'):
+                key = (it[0][0] == 's', repr(it[1]), it[2])
+            elif it[0] == 'binarysize':
+                key = (it[0], repr(it[1]))
+            elif it[0] == 'rfc822':
+                key = (it[0], it[1])
+            else:
+                key = (it[0],)
             if key in seen:
                 continue
             seen.add(key)
